@@ -1323,6 +1323,35 @@ theorem tally_counts_are_stake_times_weight (votes : List Vote) (stk : Staking) 
     n.total = voteTotal stk votes + valTotal votes stk.dels stk.vals ∧ n.bonded = stk.totalBonded :=
   ⟨fun o => (tallyNums_counts votes stk n h o).1, (tallyNums_counts votes stk n h .yes).2.1, (tallyNums_counts votes stk n h .yes).2.2⟩
 
+/-- **the final tally result a block stores is votes × stakes — after every history**: with `s` the state after any operation
+list and `p` a stored proposal whose voting end has been reached, a block (staking numbers of any staking state) stores as
+the proposal's `FinalTallyResult`, per option, the whole tokens (`TruncateInt`) of the sum over the votes stored for it at the
+moment `sm` of its tally of (power of each delegation of the voter to a bonded validator) × (weight) plus the sum over the
+bonded validators whose operator voted of (power left after the deductions) × (weight) — whatever the outcome is (passed,
+failed, rejected, or an expedited proposal converted to a regular one) -/
+theorem stored_tally_result_is_votes_times_stakes (ops : List Op) (dt : Nat) (stk : Staking) (pid : Nat) (p : Proposal) :
+    let s := run init ops
+    let s' := (step s (.endBlock dt stk)).1
+    findProp s.props pid = some p → p.status = .voting → stakingOk stk → p.votingEnd ≤ s.time →
+    ∃ (sm : State) (q : Proposal), sm.params = s.params ∧ sm.time = s.time ∧ findProp sm.props pid = some p ∧
+      findProp s'.props pid = some q ∧
+      q.tallyRes =
+        ((voteCount .yes stk (votesOf sm.votes pid) + valCount .yes (votesOf sm.votes pid) stk.dels stk.vals) / DEC,
+         (voteCount .abstain stk (votesOf sm.votes pid) + valCount .abstain (votesOf sm.votes pid) stk.dels stk.vals) / DEC,
+         (voteCount .no stk (votesOf sm.votes pid) + valCount .no (votesOf sm.votes pid) stk.dels stk.vals) / DEC,
+         (voteCount .veto stk (votesOf sm.votes pid) + valCount .veto (votesOf sm.votes pid) stk.dels stk.vals) / DEC) := by
+  intro s s' hp hv hs hle
+  have ha : All s := run_all rfl rfl rfl rfl ops init init_all
+  obtain ⟨s1, hb, _⟩ := endBlock_total rfl rfl rfl rfl rfl ha hs
+  have hs' : s' = (step s (.endBlock dt stk)).1 := rfl
+  simp only [step, hb] at hs'
+  have e' : s'.props = s1.props := by rw [hs']
+  obtain ⟨sm, q, n, _, hpar, htime, hpm, hn, hq, hres⟩ := endBlock_voting_res rfl rfl rfl rfl ha hb hp hv hle
+  have c := fun o => (tallyNums_counts (votesOf sm.votes pid) stk n hn o).1
+  refine ⟨sm, q, hpar, htime, hpm, by rw [e']; exact hq, ?_⟩
+  rw [hres, ← c .yes, ← c .abstain, ← c .no, ← c .veto]
+  rfl
+
 /-! ## non-vacuity -/
 
 def egf : Ty := egfUrl.toList
@@ -1479,5 +1508,10 @@ example : ((cancelRun (run init (demoOps.take 5)) 1 0).toOption.map (fun t => (t
     (step (run init (demoOps.take 5)) (.cancel 1 1)).2 = "err:proposer" ∧
     (step (run init (demoOps.take 5)) (.cancel 9 1)).2 = "err:notfound" := by
   refine ⟨by decide, by decide, by decide⟩
+
+/-- non-vacuity of `stored_tally_result_is_votes_times_stakes` (hypotheses: the first `example` of this section): the block at
+time 50 stores (100, 30, 70, 0) for proposal 1 — the whole tokens of the sums of the previous `example` -/
+example : (findProp (run init (demoOps.take 14 ++ [.endBlock 1 demoStk])).props 1).map (·.tallyRes) = some (100, 30, 70, 0) := by
+  decide
 
 end FxVerif.Props.C15
